@@ -743,10 +743,12 @@ class Interp:
                     for x in v:
                         sl.append(x)
                     f.locals[n] = sl
+                elif callable(kind):  # contract-supplied summary list: kind(items) -> object with append/__pyvc_havoc__/...
+                    f.locals[n] = kind(v)
                 else:
                     f.locals[n] = core.SList.from_list(kind, v)
                 names.add(n)
-            elif isinstance(v, (core.SList, core.SeqList)):
+            elif isinstance(v, (core.SList, core.SeqList)) or hasattr(v, '__pyvc_list_summary__'):
                 names.add(n)
         for n in sorted(names):
             if n in spec.no_auto:
@@ -856,6 +858,9 @@ class Interp:
             ctx.cut()
         else:
             ctx.assume(i == n)
+            end_hook = getattr(it, '__pyvc_for_end__', None)
+            if end_hook is not None:
+                end_hook()  # stub iterables with side effects at exhaustion (e.g. a generator's code after its last yield)
             self.exec_block(s.orelse, f)
 
     def iterate(self, it: Any) -> Any:
